@@ -1,18 +1,25 @@
-(* The thick-line clauses of C17 for every line whose end points lie in a common grid [-7,7]^2 -- more generally
-   |dx|, |dy| <= 14, anywhere in the plane -- x stroke widths 0..9, by computation on the model (two blocks) and
-   translation invariance.  (The sweep over |dx|,|dy| <= 24, w <= 12 also evaluates to true, 64 s of vm_compute, but
-   coqchk needs ~25x that; the larger domain is left to the implementation-side search p_thick.) *)
-From EG Require Import Base.Prelude Model.Geometry Model.Line Model.Thickline Proofs.Line Proofs.ThicklineCheck.
+(* The thick-line clauses of C17 (distance <= w/2 + 2.5, <= 1 px beyond the ends, >= w-1 wide at the middle; no
+   duplicate pixel is proved in general) for every line whose end points lie in a common grid [-12,12]^2 -- more
+   generally |dx|, |dy| <= 24, anywhere in the plane -- x stroke widths 0..16, by computation on the model over ONE
+   quadrant of deltas (three blocks, Proofs/ThicklineGrid{A,B,C}.v) plus the axis-parallel and diagonal lines, and
+   invariance under translation and under rotation by 90 degrees (Proofs/ThicklineRot.v, thick_ok_sym). *)
+From EG Require Import Base.Prelude Model.Geometry Model.Line Model.Thickline Proofs.Line Proofs.ThicklineCheck
+                       Proofs.ThicklineGridA Proofs.ThicklineGridB Proofs.ThicklineGridC.
 Set Default Timeout 120.
 
-Lemma grid_block_A : grid_b (-14) 0 (-14) 15 9 = true.
+Lemma grid_axis_v : grid_b 0 1 (-24) 25 16 = true.
 Proof. vm_compute. reflexivity. Qed.
-Lemma grid_block_B : grid_b 0 15 (-14) 15 9 = true.
+Lemma grid_axis_h : grid_b (-24) 25 0 1 16 = true.
+Proof. vm_compute. reflexivity. Qed.
+Lemma grid_diag : diag_b 24 16 = true.
 Proof. vm_compute. reflexivity. Qed.
 
-Lemma thick_ok_grid l w : -14 <= ldx l <= 14 -> -14 <= ldy l <= 14 -> 0 <= w <= 9 -> thick_ok l w.
+Lemma thick_ok_grid l w : -24 <= ldx l <= 24 -> -24 <= ldy l <= 24 -> 0 <= w <= 16 -> thick_ok l w.
 Proof.
-  intros Hx Hy Hw.
-  destruct (Z_lt_ge_dec (ldx l) 0); [apply (grid_b_sound _ _ _ _ _ grid_block_A); lia|].
-  apply (grid_b_sound _ _ _ _ _ grid_block_B); lia.
+  apply (thick_ok_sym 24 16).
+  - apply (grid_b_app 1 14 25); [lia | exact grid_block_A |].
+    apply (grid_b_app 14 20 25); [lia | exact grid_block_B | exact grid_block_C].
+  - exact grid_axis_v.
+  - exact grid_axis_h.
+  - exact grid_diag.
 Qed.
